@@ -385,7 +385,7 @@ def check(pid, tier, seed):
                traces_validated_against_impl=len(tres) + behaviours + extra.get("traces", 0),
                samples=samples[:6] or [dict(note="no samples")],
                evaluations=events + behaviours + extra.get("evaluations", 0),
-               distinct_nontrivial=len(ops) + behaviours + extra.get("distinct", 0) if (events + behaviours) else 0,
+               distinct_nontrivial=len(ops) + behaviours + extra.get("distinct", 0) if (events + behaviours + extra.get("evaluations", 0)) else 0,
                rule="T: one event per call on the real code, judged by the TLA+ action of the same name (events per action in events_by_action); "
                     "R: behaviours enumerated by TLC and replayed on the real code; D: bounded model checking of the specification",
                design_checks=dres, lemmas=lres, obligations=len(lres), discharged=len(lres), events_validated=events, events_by_action=ops, rejected_events=len(rejects),
